@@ -36,6 +36,7 @@ def parseStmt : List String → Option Stmt
     let l ← parseLbl l
     let ds ← (ds.splitOn ",").mapM parseQ
     pure (.setrep l ds)
+  | ["mergeset", l, k, w] => do pure (.mergeset (← parseLbl l) (← k.toNat?) (← parseQ w))
   | ["refused", "0"] => some .refused
   | ["refused", "1"] => some .refused
   | _ => none
